@@ -29,7 +29,7 @@ sys.path.insert(0, HERE)
 import extract as X  # noqa: E402
 
 REPO = X.REPO
-BUILD = os.path.join(VERIF, 'build')
+BUILD = os.environ.get('VERIF_BUILD', os.path.join(VERIF, 'build'))
 INCLUDE = os.path.join(VERIF, 'contracts', 'include')
 
 CHECK_FLAGS = ['--bounds-check', '--pointer-check', '--pointer-overflow-check', '--signed-overflow-check',
@@ -194,19 +194,25 @@ def cbmc_job(unit, cfile, outdir, tag, defines, tier, fn=None):
     rc, so, se, _ = run(cmd, 120)
     if rc != 0:
         raise Undecided("unit %s: goto-cc failed (extraction produced text that is not C):\n%s" % (name, (so + se)[-3000:]))
-    cmd = ['goto-instrument', '--dfcc', entry]
-    if fn:
-        cmd += ['--enforce-contract', fn]
-    for g in unit.get('replace', []):
-        if g == fn:
-            continue
-        cmd += ['--replace-call-with-contract', g]
-    if unit.get('loop_contracts', True):
-        cmd.append('--apply-loop-contracts')
-    cmd += [a, b]
-    rc, so, se, _ = run(cmd, 300)
-    if rc != 0:
-        raise Undecided("unit %s: goto-instrument failed:\n%s" % (name, (so + se)[-3000:]))
+    replace = [g for g in unit.get('replace', []) if g != fn]
+    while True:
+        cmd = ['goto-instrument', '--dfcc', entry]
+        if fn:
+            cmd += ['--enforce-contract', fn]
+        for g in replace:
+            cmd += ['--replace-call-with-contract', g]
+        if unit.get('loop_contracts', True):
+            cmd.append('--apply-loop-contracts')
+        cmd += [a, b]
+        rc, so, se, _ = run(cmd, 300)
+        if rc != 0:
+            m = re.search(r"Function to replace '(\w+)' not found", so + se)
+            if m and m.group(1) in replace:
+                # the callee is not reachable from this harness: nothing to replace in this job
+                replace.remove(m.group(1))
+                continue
+            raise Undecided("unit %s: goto-instrument failed:\n%s" % (name, (so + se)[-3000:]))
+        break
     off = set(DEFAULT_OFF) - set(unit.get('flags_on', []))
     off |= set(unit.get('flags_off', []))
     flags = [f for f in CHECK_FLAGS if f not in off]
@@ -481,7 +487,7 @@ def check_property(pid, tier, only_unit=None, seed=0):
             lines.append(ln)
             nviol += 1
     wall = time.time() - t0
-    if only_unit is None:
+    if only_unit is None and REPO == '/repo':
         write_evidence(pid, mod, tier, seed, results, errors, nviol, wall, known)
     for ln in lines:
         print(ln)
